@@ -186,6 +186,7 @@ class SimProcess:
         self.soft_signals = 0
         self.last_delivered = None
         self.guard_waited = False
+        self.busy_until = 0.0
         self.drain_code = EX_RECYCLE
         self.late_readies = 0
 
@@ -450,6 +451,7 @@ class Sim:
         self.model_target = config['procs']
         self.cb_thread = None
         self.in_scan = False
+        self.exit_logpos = {}
         self.excluded = {}
         kw = dict(
             processes=config['procs'], threads=config.get('threads', True),
@@ -488,6 +490,7 @@ class Sim:
 
     def on_exit(self, proc, status):
         self.exits.append((proc.pid, status, CLOCK.now, proc.state))
+        self.exit_logpos[proc.pid] = len(self.log)
         self.any_exit = True
         # parts this worker had taken and whose READY it never produced
         for mj in self.jobs:
@@ -511,6 +514,9 @@ class Sim:
             if not self.step_worker(proc):
                 if proc.state == DRAINING:
                     CLOCK.now += 1.0      # it leaves after its 30 s guard at most
+                    continue
+                if proc.state == RUNNING and CLOCK.now < proc.busy_until:
+                    CLOCK.now = proc.busy_until     # a slow task: wait for it
                     continue
                 break
         if proc.alive:
@@ -566,6 +572,8 @@ class Sim:
     def w_finish(self, proc):
         if not (proc.alive and proc.state == RUNNING):
             return False
+        if CLOCK.now < proc.busy_until:
+            return False            # a slow task: not done yet
         job, i, fun, args, kwargs = proc.current
         try:
             result = (True, fun(*args, **kwargs))
@@ -666,6 +674,10 @@ class Sim:
             if mj is not None and i in mj.parts:
                 mj.parts[i].ack_delivered = True
                 mj.parts[i].ack_time = t
+                if pid in self.reaps:
+                    # consumed only after its sender had been reaped (zone of
+                    # the open finding D7)
+                    mj.late_ack = True
         elif kind == READY:
             job, i, res, _ = args
             if job not in self.pool._cache:
@@ -718,6 +730,7 @@ class Sim:
         self.labels.add('scan_during_callback')
         self.cb_job = mj
         self.cb_sigpos = len(self.signals)
+        self.scan_logpos = len(self.log)
         self.cb_tcb = len(mj.cb['timeout'])
         self.cb_error = []
         # jobs whose result had been consumed before this scan started
@@ -1041,6 +1054,7 @@ class Sim:
         if CLOCK.hook is None:
             self.scan_resolved = set()
         self.scan_sigpos = len(self.signals)
+        self.scan_logpos = len(self.log)
         self.in_scan = True
         try:
             pool._timeout_handler.handle_event()
@@ -1145,8 +1159,13 @@ class Sim:
     def op_close(self):
         if self.closed:
             return 'noop'
+        loss_pending = any(
+            p.owner is not None and not p.ready_delivered and
+            not self.by_pid[p.owner].alive
+            for mj in self.jobs if mj.handle is not None and not mj.discarded
+            and not mj.resolved() for p in mj.parts.values())
         if not self.allowed('close-unsupervised') and (
-                self.config.get('maxtasks') or
+                self.config.get('maxtasks') or loss_pending or
                 any(not p.alive for p in self.pool._pool) or
                 any(p.term_pending for p in self.pool._pool)):
             return self.exclude('close-with-exits-pending')
@@ -1257,6 +1276,10 @@ class Sim:
     # -- deterministic epilogue ----------------------------------------------------
     def op_quiesce(self):
         pool = self.pool
+        if self.closed and not self.joined:
+            # a closed pool is drained by join() itself (the shutdown path does
+            # the supervision then), not by the harness beforehand
+            self.op_join()
         big_advances = 0
         for rnd in range(3000):
             progressed = False
@@ -1366,6 +1389,55 @@ class Sim:
             return 'noop'
         return self.op_die(self.alive_workers().index(proc), status)
 
+    def op_slow(self, k, secs):
+        """the task worker k is running will take ``secs`` more (fake) seconds"""
+        cands = [p for p in self.alive_workers() if p.state == RUNNING]
+
+        def tail_of_shared_job(p):
+            # runs a part of a multi-part job another worker already finished
+            # a part of: the interesting straggler
+            mj = self.by_jobid.get(p.current[0])
+            return mj is not None and mj.multipart and any(
+                q.ready_delivered and q.owner != p.pid for q in mj.parts.values())
+        pref = [p for p in cands if tail_of_shared_job(p)]
+        proc = self._pick(pref or cands, k)
+        if proc is None:
+            return 'noop'
+        proc.busy_until = CLOCK.now + secs
+        self.labels.add('slow_task')
+        if pref:
+            self.labels.add('slow_tail_of_shared_job')
+
+    def op_straggle(self, k, secs, then_close=True):
+        """composite: of the next two queued parts of one multi-part job, one is
+        done and delivered by a worker, the other is accepted by a different
+        worker and will take ``secs`` more seconds; then (optionally) close()"""
+        if self.closed:
+            return 'noop'
+        self.drain_taskqueue()
+        idle = [p for p in self.alive_workers()
+                if p.state == IDLE and not p.term_pending]
+        if len(idle) < 2 or len(self.fifo) < 2 or self.fifo[0] is None or \
+                self.fifo[1] is None:
+            return 'noop'
+        j0, j1 = self.fifo[0][1][0], self.fifo[1][1][0]
+        mj = self.by_jobid.get(j0)
+        if j0 != j1 or mj is None or not mj.multipart:
+            return 'noop'
+        x = idle[k % len(idle)]
+        y = [p for p in idle if p is not x][0]
+        self.w_take(x)
+        self.w_finish(x)
+        while x.outbox:
+            self.deliver(x)
+        self.w_take(y)
+        while y.outbox:
+            self.deliver(y)
+        y.busy_until = CLOCK.now + secs
+        self.labels.add('straggler')
+        if then_close:
+            self.op_close()
+
     def op_run(self, k):
         """composite: worker k takes a task and its ACK is delivered (the job
         is now running with a known accept time)"""
@@ -1379,7 +1451,7 @@ class Sim:
             self.deliver(proc)
 
     # -- dispatch --------------------------------------------------------------------
-    AFTER_CLOSE_OK = ('run', 'take', 'finish', 'deliver', 'work', 'feed', 'adv', 'dup',
+    AFTER_CLOSE_OK = ('straggle', 'slow', 'run', 'take', 'finish', 'deliver', 'work', 'feed', 'adv', 'dup',
                       'wexit', 'join', 'quiesce', 'close', 'apply', 'map', 'imap',
                       'tick', 'discard', 'die')
 
